@@ -171,7 +171,8 @@ def st_save():
     return st.fixed_dictionaries({
         "op": st.just("save"), "mode": st.sampled_from(["new", "new", "any", "again", "other", "other"]),
         "file": st.integers(0, 2), "enum": st.integers(0, 3), "fit": st.integers(0, 2),
-        "pick": st.integers(0, 7), "user": st_user()})
+        "pick": st.integers(0, 7), "user": st_user(),
+        "keep": st.sampled_from([None, None, "rating+name", None, "all", None])})
 
 
 def st_load():
@@ -902,7 +903,13 @@ def interpret(case, ctx, env, stats):
         stats["saves"] += 1
         if model:
             stats["onto"] += 1
-        user = op["user"]
+        user = dict(op["user"])
+        if stored is not None and op.get("keep"):
+            # a re-save that changes only part of the user fields (comment edited / nothing changed at all)
+            user["rating"], user["name"] = stored.user["rating"], stored.user["name"]
+            if op["keep"] == "all":
+                user["comment"] = stored.user["comment"]
+            stats["classes"].append("resave-keeps-" + op["keep"])
         pre_blob = env.container.read_bytes() if env.container.exists() else None
         dkey = "/data/" + key[0]
         gkey = "/analysis/" + f"{key[0]}_{key[1]}"
